@@ -100,6 +100,18 @@ def run_plan(plan_data, root):
             return "root" in pools.get(("shared", host_of[ctx["me"]]), set())
 
         @classmethod
+        def get_root(cls, params, object=None):
+            contacts.append(("download_root", ":" + params["shared_pool"]))
+            if "root" in pools.get(("shared", host_of[ctx["me"]]), set()):
+                pools.setdefault(("swarm", host_of[ctx["me"]]), set()).add("root")
+
+        class ops:
+            @staticmethod
+            def compare(cache_path, pool_path, params):
+                contacts.append(("compare_root", pool_path))
+                return "root" not in ctx["invalid"]
+
+        @classmethod
         def set_root(cls, params, object=None):
             contacts.append(("upload_root", ":" + params["shared_pool"]))
             pools.setdefault(("shared", host_of[ctx["me"]]), set()).add("root")
@@ -138,6 +150,10 @@ def run_plan(plan_data, root):
         def _check_root(cls, params, object=None):
             contacts.append(("local_check_root", "own"))
             return "root" in pools.get(("swarm", host_of[ctx["me"]]), set())
+
+        @classmethod
+        def _get_root(cls, params, object=None):
+            contacts.append(("local_get_root", "own"))
 
         @classmethod
         def _set_root(cls, params, object=None):
@@ -204,6 +220,9 @@ def run_plan(plan_data, root):
                 LocalRoot.unset_root(Params(params), None)
             elif op == "check_root":
                 result = LocalRoot.check_root(Params(params), None)
+            elif op == "get_root":
+                params.update({"image_name": "image", "vms_base_dir": "/images", "images_base_dir": "/images"})
+                LocalRoot.get_root(Params(params), None)
         except RuntimeError as error:
             outcome = "RuntimeError"
         except Exception as error:
@@ -311,6 +330,25 @@ def run_plan(plan_data, root):
             if not ok:
                 violations.append(V("root-update", "removing a root state did not follow the pool scope rules",
                                     step=n, scope=step["scope"], outcome=outcome, remote=remote))
+        elif op == "get_root":
+            sc = step["scope"].split()
+            downloads = [k for k, _ in remote if k == "download_root"]
+            local_get = any(k == "local_get_root" for k, _ in contacts)
+            shared_has = "root" in before.get(("shared", host_of[me]), set())
+            local_has = "root" in local_before
+            if "own" not in sc:
+                ok = outcome == "ok" and len(downloads) == 1 and not local_get
+            elif step["scope"] == "own":
+                ok = outcome == "ok" and not remote and local_get
+            else:
+                want_download = shared_has and (not local_has or "root" in step.get("invalid", []))
+                ok = outcome == "ok" and (len(downloads) == 1) == want_download and local_get
+                if want_download:
+                    probe("root-download")
+            if not ok:
+                violations.append(V("root-fetch", "getting a root state did not follow the pool scope / cache validity rules",
+                                    step=n, scope=step["scope"], outcome=outcome, remote=remote, local_root=local_has,
+                                    pool_root=shared_has, invalid="root" in step.get("invalid", [])))
         elif op == "check_root" and outcome == "ok":
             if step["scope"] == "own" and remote:
                 violations.append(V("disabled-source-contacted", "check_root contacted the pool with only the own scope enabled", step=n))
